@@ -7,7 +7,7 @@ from typing import Any
 
 import z3
 
-from vlib import hutil, loader, symx
+from vlib import hutil, loader, symx, xnp
 from vlib.symx import SInt
 
 ID = 'C07'
@@ -15,7 +15,7 @@ ID = 'C07'
 MANIFEST = {
     'engine': 'symx',
     'text': 'Inductive-step bounded model checking of the real prior_combinations_sample source: the global counter starts in an ARBITRARY state satisfying the invariant max-min<=1 over a duplicate-free candidate list (symbolic counts; or empty = base case), the cap is symbolic (so it may change between batches), one call runs, and z3 shows on every path: len(out)=min(cap,m), distinct members of the list, every selected pre-count <= every unselected one, counter +1 exactly on the selected, invariant restored. One step from every invariant state covers batch sequences of any length.',
-    'note': 'Candidate lists of m<=5 (quick) / m<=7 (thorough) entries; counts in [0,4]; lists with duplicates and lists sharing keys in the one global counter are outside (the statement says stable duplicate-free list). Export of the counter to combination_estimation_counts.json is checked on the real task tail in C08.',
+    'note': 'Candidate lists of m<=5 (quick) / m<=7 (thorough) entries; counts in [0,4]; lists with duplicates and lists sharing keys in the one global counter are outside (the statement says stable duplicate-free list). The export clause (returned/exported counts = selections) is explored through the real streaming loop incl. the tail batch (condition export; the JSON file itself in C08).',
     'technique': 'symbolic execution of the real Python source with z3 from an arbitrary invariant pre-state (k-induction, k=1)',
 }
 
@@ -32,12 +32,12 @@ CMAX = 4
 
 
 def load_fn():
-    ns = loader.load('outrank/core_ranking.py', only=['prior_combinations_sample', 'GLOBAL_PRIOR_COMB_COUNTS'], extra={'Counter': Counter, 'Any': Any})
+    ns = loader.load('outrank/core_ranking.py', only=['prior_combinations_sample', 'GLOBAL_PRIOR_COMB_COUNTS'], extra={'Counter': Counter, 'Any': Any, 'np': xnp, 'itertools': __import__('itertools'), 'random': __import__('random')})
     return ns
 
 
 def jobs(tier):
-    out = []
+    out = [{'cond': 'export', 'pins': {}, 'weight': 50, 'label': 'export'}]
     for m in BOUNDS[tier]:
         for fresh in (False, True):
             if m >= 6 and not fresh:
@@ -48,11 +48,41 @@ def jobs(tier):
     return out
 
 
+def run_export(job):
+    """export clause: the evaluation counts returned by the streaming loop (and written to combination_estimation_counts.json) equal
+    the number of batches in which each combination was selected - explored through the real loop, including the tail batch"""
+    from harness import C08
+    from harness import pipeline as PL
+    cr, cu, tr, ie = PL.real_modules()
+    loader.record_functions('outrank/core_ranking.py', ['estimate_importances_minibatches', 'prior_combinations_sample'])
+    st = {}
+    CASES = [(1025, 1026), (1030, 2000), (1025, 1025), (5, 2), (4, 1), (2051, 1025)]
+
+    def setup(ctx):
+        st['case'] = z3.Int('case')
+        ctx.assume(st['case'] >= 0, st['case'] < len(CASES))
+
+    def body(ctx, out):
+        n, mb = CASES[int(SInt(st['case'], 0, len(CASES) - 1))]
+        lines = [C08.line(i, 0) for i in range(n)]
+        rec = C08.drive_loop(cr, cu, [','.join(C08.COLS) + '\n'] + lines, 1, mb)
+        recount = Counter(c for b in rec['sel'] for c in b)
+        ok = {k: v for k, v in rec['counts'].items() if v} == dict(recount)
+        if ok and not out.twin:
+            out.concrete_ok()
+        else:
+            out.concrete_fail({'cond': 'export', 'n': n, 'mb': mb}, 'returned evaluation counts differ from the selections')
+        out.sample({'lines': n, 'minibatch': mb, 'counts': {str(k): v for k, v in rec['counts'].items()}})
+    return hutil.run_symx(job, setup, body)
+
+
 def cands(m):
     return [(f'f{i}', f'g{i}') for i in range(m)]
 
 
 def run_job(job):
+    if job['cond'] == 'export':
+        return run_export(job)
     m, fresh = job['m'], job['fresh']
     ns = load_fn()
     f = ns['prior_combinations_sample']
@@ -114,6 +144,16 @@ def run_job(job):
 def replay(w):
     loader.use_repo_on_syspath()
     import outrank.core_ranking as cr
+    if w['cond'] == 'export':
+        from harness import C08
+        from harness import pipeline as PL
+        crm, cu, tr, ie = PL.real_modules()
+        lines = [C08.line(i, 0) for i in range(w['n'])]
+        rec = C08.drive_loop(crm, cu, [','.join(C08.COLS) + '\n'] + lines, 1, w['mb'])
+        recount = Counter(c for b in rec['sel'] for c in b)
+        if {k: v for k, v in rec['counts'].items() if v} != dict(recount):
+            return {'reproduced': True, 'signature': 'C07:export', 'what': f'{w["n"]} rows, minibatch {w["mb"]}: evaluation counts returned by the streaming loop {rec["counts"]} vs selections per batch {dict(recount)}'}
+        return {'reproduced': False, 'what': 'counts equal selections'}
     C = cands(w['m'])
     cr.GLOBAL_PRIOR_COMB_COUNTS.clear()
     if not w['fresh']:
